@@ -684,7 +684,9 @@ def make_configs(cirq, mods):
         call = (lambda tr: lambda c, context: tr(c, context=context, rng_or_seed=GAUGE_SEED[0]))(tr) if nm.endswith('MM') else gauge_call(tr)
         C.append(Cfg(nm, '', call, 'semantic', kinds=(kind, kind, kind + ':measured'), expect_raise=gdeep, n=0.6, nest=False))
     # ---- special contracts ----
-    defer_ignored = lambda circuit, deep, ignore, e: ignore and isinstance(e, ValueError) and 'Deferred measurement for key' in str(e)
+    # an ignored (hence not deferred) measurement whose record a classical control needs: documented ValueError
+    defer_ignored = lambda circuit, deep, ignore, e: (ignore and isinstance(e, ValueError) and ('Deferred measurement for key' in str(e) or 'Invalid index for' in str(e))
+                                                      and any(cirq.is_measurement(o) for o in collect_ignored(cirq, circuit, True)))
     C.append(Cfg('defer_measurements', '', ctx_call(t.defer_measurements), 'special', kinds=('measured', 'measured', 'terminal', 'measured-nc'), contract='defer', sub_exempt=True, deep=False, n=1.5,
                  expect_raise=defer_ignored))
     no_cc = raises_documented(ValueError, lambda c, deep, ign: any(cirq.control_keys(op) for op in flatten_ops(cirq, c)))
